@@ -36,6 +36,7 @@ def run_instance(inst, tier):
     paths = list(PATHS[inst["kind"]])
     if 2 <= inst["arrangements"] <= 24:
         paths.append(f"{inst['kind']}-direct-twice")   # second generation on the same generator object
+    paths.append(f"{inst['kind']}-direct-grown")       # second generation after the caller's list was refilled in place
     for path in paths:
         first = []
         n_motifs = [0]
